@@ -643,6 +643,13 @@ func (e *Engine) registerIntrinsicsFor(pp string) {
 		in.path.mapOrder = a[0].(*Term).val == 1
 		return nil
 	}
+	m[pp+".vParam"] = func(in *Interp, fn *ssa.Function, a []Value) Value {
+		l, _ := a[0].(Str).concrete()
+		if v, ok := in.w.eng.params[l]; ok {
+			return in.tt.BV(64, uint64(int64(v)))
+		}
+		return a[1]
+	}
 	m[pp+".vSymbolic"] = func(in *Interp, fn *ssa.Function, a []Value) Value {
 		return in.tt.T
 	}
